@@ -5,6 +5,7 @@ COQ_FILES = ["Machine.v", "World.v", "World_proofs.v", "World_owner_proofs.v"]
 DRIVERS = [
     dict(name="life_verif32", src="life.cpp", defines=["LIFE_VERIF"], ops=["life32"]),
     dict(name="life_noop", src="life.cpp", defines=["LIFE_NOOP"], ops=["lifen"]),
+    dict(name="life_dylib", src="life.cpp", defines=["LIFE_DYLIB"], ops=["lifed"]),      # rlbox_dylib_sandbox (bound to libc.so.6)
 ]
 ALPHA13 = ["r:0:0:1", "r:0:0:2", "r:1:0:1", "r:1:0:2", "r:2:0:3", "u:0", "u:1", "ma:0:1", "ma:1:0", "ma:0:0", "ma:2:0", "mc:2:0", "mc:2:1", "mc:0:2",
            "q:0", "q:1", "gs:0:0", "gs:0:1", "gs:0:3", "go:0:0", "go:1:0", "go:2:0", "fill:0:2", "fill:0:3", "d:0", "c:0:1", "r:0:1:1", "c:1:1"]
@@ -29,6 +30,10 @@ def gen_cases(tier, rng):
     for c in list(cases[::5]):
         if c.startswith("life32"):
             cases.append("lifen " + c.split(" ", 1)[1])
+    # the other shipped back end has its own slot table and trampolines: every no-op history runs on it too
+    for c in list(cases):
+        if c.startswith("lifen"):
+            cases.append("lifed " + c.split(" ", 1)[1])
     return cases
 
 
@@ -38,7 +43,7 @@ def NONTRIVIAL(case, model, cls):
 
 RULE = ("histories on a pool of 8 (+170 filler) application functions and 3 owner variables over {register f_k into owner j, unregister, move-assign (onto empty, onto live, self, from inert), "
         "move-construct, is_unregistered, guest call of a raw entry-point slot, guest call through the entry point an owner holds, fill n slots, destroy sandbox, re-create}: exhaustive to "
-        "depth 3 (quick)/4 (thorough) over 28 operations after create, random to length 24; pools larger than the table (verif: 4 slots; rlbox_noop_sandbox: 64 slots, 65th registration). "
+        "depth 3 (quick)/4 (thorough) over 28 operations after create, random to length 24; pools larger than the table (verif: 4 slots; rlbox_noop_sandbox and rlbox_dylib_sandbox: 64 slots, 65th registration; every history of the no-op back end also runs on rlbox_dylib_sandbox). "
         "After every step: outcome, slot index issued, which function a guest call reaches.")
 TRUSTED = ["model coq/World.v hand-written; tied by differential correspondence of whole histories"]
 ASSUMPTIONS = ["abort is terminal", "the owner/key/slot agreement is proved for all histories without sandbox destruction; histories with destroy + re-create meet known finding D12 and are decided by the correspondence"]
